@@ -18,7 +18,7 @@ RULE = (
     "base scenarios: probe a {b0,w0,n0|all} x z slot x probe b {b1,c1,n0|all} x patches {2,3} x configuration "
     "{3 angular scales; kpc scales; separation weighting; one small scale} on catalogs with >= 2 objects per patch and bin; "
     "transformations: rotations {straddling RA=0, centre on north pole, on south pole, pole on a patch "
-    "border, generic}; row orders {reverse, rotate by one, swap first two, interleave | all permutations for "
+    "border, generic}, also with right ascensions given in (-180,180] (radian and degree input); row orders {reverse, rotate by one, swap first two, interleave | all permutations for "
     "n<=4}; every permutation of the centre list; weight factors {1e-3,0.5,2,1e3} on each of the four catalogs; "
     "every split of the unknown catalog into two catalogs that both cover all patches. Oracle: CorrFunc.sample() "
     "data/samples(permuted accordingly)/covariance and RedshiftData.from_corrfuncs equal to 1e-9, raw counts of "
@@ -51,6 +51,11 @@ def cases(tier, seed):
         base = dict(conf=ci, pa=pa, za=za, pb=pb, npatch=npatch, seed=seed)
         for w in ("straddle", "npole", "spole", "midpole", "generic"):
             out.append(dict(base, T="rotate", world=w))
+        # the same rotated field with right ascensions given in (-180, 180] instead of [0, 360): radian and degree input
+        for w, rep in (("straddle", "neg-rad"), ("straddle", "neg-deg"), ("npole", "neg-rad")):
+            if tier == "quick" and (ci != confs[0] or rep == "neg-deg" and npatch == 3):
+                continue
+            out.append(dict(base, T="rotate", world=w, ra_repr=rep))
         for kind in ("reverse", "roll", "swap01", "interleave"):
             out.append(dict(base, T="rows", kind=kind))
         for perm in itertools.permutations(range(npatch)):
@@ -102,7 +107,7 @@ def build(case):
 
 
 def measure(conf, world, objs, npatch, *, cen_perm=None, row_perm=None, wfactor=None, only_counts=False,
-            cats=None, cen_n=None):
+            cats=None, cen_n=None, ra_repr=None):
     import yaw
 
     edges, closed = worlds.BINNINGS[conf["binning"]]
@@ -123,7 +128,14 @@ def measure(conf, world, objs, npatch, *, cen_perm=None, row_perm=None, wfactor=
             for k in ("ra", "dec", "z", "w"):
                 if c[k] is not None:
                     c[k] = np.asarray(c[k])[p]
-        lib.append(worlds.make_catalog(f"{d}/{name}", c, cen))
+        kw = {}
+        if ra_repr:
+            ra = np.asarray(c["ra"], dtype=float)
+            c["ra"] = np.where(ra > np.pi, ra - 2.0 * np.pi, ra)
+            if ra_repr == "neg-deg":
+                c["ra"], c["dec"] = np.rad2deg(c["ra"]), np.rad2deg(c["dec"])
+                kw["degrees"] = True
+        lib.append(worlds.make_catalog(f"{d}/{name}", c, cen, **kw))
     cR, cU, cRR, cUR = lib
     config = yaw.Configuration.create(rmin=rmin, rmax=rmax, unit=conf["unit"], edges=edges, closed=closed,
                                       rweight=conf["rweight"], resolution=conf["res"])
@@ -254,8 +266,8 @@ def run_case(case):
         else:
             base = measure(conf, world0, objs, npatch, cats=cats0)
             if T == "rotate":
-                other = measure(conf, case["world"], objs, npatch)
-                compare(base, other, "rotate", v, tag=f"/{case['world']}")
+                other = measure(conf, case["world"], objs, npatch, ra_repr=case.get("ra_repr"))
+                compare(base, other, "rotate", v, tag=f"/{case['world']}" + (f"/{case['ra_repr']}" if case.get("ra_repr") else ""))
             elif T == "rows":
                 other = measure(conf, world0, objs, npatch, row_perm=ROWPERM[case["kind"]], cats=cats0)
                 compare(base, other, "rows", v)
